@@ -208,6 +208,19 @@ def shr(x, k):
     return x >> k
 
 
+def div(a, b):
+    """floor division by a positive constant"""
+    if is_z3(a):
+        return simp(a / I(b))
+    return a // b
+
+
+def mod(a, b):
+    if is_z3(a):
+        return simp(a % I(b))
+    return a % b
+
+
 def field(o, name):
     if isinstance(o, Obj):
         return obj_fields(o)[name]
